@@ -869,10 +869,6 @@ impl PeerHandler {
                 .addr
                 .replace(|c: char| !c.is_ascii_alphanumeric(), "_")
         );
-        // File-system seam: the same write, spelled as its two steps (truncate, write).
-        #[cfg(feature = "verif")]
-        let res = crate::verif::write_file_in_two_steps(&part, &piece_rx.buff).await;
-        #[cfg(not(feature = "verif"))]
         let res = fs::write(&part, &piece_rx.buff).await;
         // File-system seam: the replacement of an existing piece file can be held back here.
         #[cfg(feature = "verif")]
